@@ -73,6 +73,11 @@ OPTIONS = {
     'bonds-name': ['-bonds-from', 'name'],
     'bonds-fudge1': ['-bonds-fudge', '1.0'],
     'merge-all-elastic': ['-merge', 'all', '-elastic'],
+    # hydrogens ignored: their names and their places in the file are no part of the chemistry that is left
+    'ignh': ['-ignh'],
+    # the same structure given as a GRO file (no element column: the element is read off the name, 'HB1' and '1HB' alike)
+    'gro-ignh': ['-ignh', '-elastic'],
+    'gro': [],
 }
 
 
@@ -157,10 +162,30 @@ def deviations_of(atoms, tier):
 TRANSLATIONS = [(0.0, 0.0, 0.0), (12.5, -7.25, 3.125), (-101.0, 55.5, 0.375)]
 
 
-def apply_deviation(atoms, dev):
+def render_gro(atoms):
+    lines = ['presentation of a fragment', '%5d' % len(atoms)]
+    for serial, atom in enumerate(atoms, 1):
+        line = atom['line']
+        x, y, z = atom['xyz']
+        lines.append('%5d%-5s%5s%5d%8.3f%8.3f%8.3f' % (int(line[22:26]), line[17:20].strip(), atom['name'].strip(), serial % 100000,
+                                                     x / 10.0, y / 10.0, z / 10.0))
+    lines.append('  10.00000  10.00000  10.00000')
+    return '\n'.join(lines) + '\n'
+
+
+def apply_deviation(atoms, dev, digit_first=False):
     atoms = [dict(a) for a in atoms]
     kind = dev[0]
     motion = None
+    if digit_first and kind in ('rename-h', 'rename-all-h'):
+        # the other common convention for hydrogen names: the number in front ('1HB'); the first letter, from which a GRO reader
+        # takes the element, is still H
+        count = 0
+        for idx, atom in enumerate(atoms):
+            if atom['element'] == 'H' and (kind == 'rename-all-h' or idx == dev[1]):
+                count += 1
+                atom['name'] = ('%dH%s' % (count % 10, 'XYZW'[(count // 10) % 4])).ljust(4) if kind == 'rename-all-h' else ('%dHX' % (dev[1] % 10)).ljust(4)
+        return atoms, None
     if kind == 'swap':
         atoms[dev[1]], atoms[dev[2]] = atoms[dev[2]], atoms[dev[1]]
     elif kind == 'to-front':
@@ -182,8 +207,8 @@ def apply_deviation(atoms, dev):
             atom['xyz'] = tuple(round(v, 3) for v in move(atom['xyz'], rot, trans))
         motion = (rot, trans)
     elif kind == 'pair':
-        atoms, m1 = apply_deviation(atoms, dev[1])
-        atoms, m2 = apply_deviation(atoms, dev[2])
+        atoms, m1 = apply_deviation(atoms, dev[1], digit_first)
+        atoms, m2 = apply_deviation(atoms, dev[2], digit_first)
         motion = m1 or m2
     return atoms, motion
 
@@ -212,10 +237,12 @@ def canonical(workdir):
 def run_case(base, name, opts, atoms, dev, tag):
     work = os.path.join(base, tag)
     os.makedirs(work)
-    deviated, motion = apply_deviation(atoms, dev)
-    with open(os.path.join(work, 'in.pdb'), 'w') as handle:
-        handle.write(render_pdb(deviated))
-    argv = ['-f', 'in.pdb', '-x', 'cg.pdb', '-o', 'topol.top', '-maxwarn', '100'] + OPTIONS[opts]
+    as_gro = opts.startswith('gro')
+    deviated, motion = apply_deviation(atoms, dev, digit_first=as_gro)
+    infile = 'in.gro' if as_gro else 'in.pdb'
+    with open(os.path.join(work, infile), 'w') as handle:
+        handle.write(render_gro(deviated) if as_gro else render_pdb(deviated))
+    argv = ['-f', infile, '-x', 'cg.pdb', '-o', 'topol.top', '-maxwarn', '100'] + OPTIONS[opts]
     if opts == 'ss':
         nres = len({a['res'] for a in atoms})
         argv = [a if a != 'C' else 'C' * nres for a in argv]
@@ -423,12 +450,12 @@ def bind_driver(name):
 def run(ctx):
     if ctx.quick:
         inputs = ['tri-ala', 'ala5', 'ala1-zwitterion', 'bta15-18', 'bta38-41', 'villin52-55', 'bpti-ss', 'bta-two-chains', 'ala5-altloc']
-        optsets = {'bta-two-chains': ['default', 'merge'], 'ala5-altloc': ['default'], 'tri-ala': ['default', 'posres', 'ss', 'nt', 'bonds-name'], 'ala5': ['elastic', 'nt'], 'ala1-zwitterion': ['default'], 'bta15-18': ['elastic', 'martini22'], 'bta38-41': ['elastic', 'cys-none', 'bonds-fudge1'],
+        optsets = {'bta-two-chains': ['default', 'merge'], 'ala5-altloc': ['default'], 'tri-ala': ['default', 'posres', 'ss', 'nt', 'bonds-name', 'gro-ignh'], 'ala5': ['elastic', 'nt', 'ignh'], 'ala1-zwitterion': ['default'], 'bta15-18': ['elastic', 'martini22', 'gro-ignh'], 'bta38-41': ['elastic', 'cys-none', 'bonds-fudge1'],
                    'villin52-55': ['elastic'], 'bpti-ss': ['elastic', 'cys-none']}
         seeds = [0, 1, 2, 3 + ctx.seed % 50]
     else:
         inputs = list(FRAGMENTS)
-        full = [o for o in OPTIONS if not o.startswith('merge') and not o.startswith('bonds')]
+        full = [o for o in OPTIONS if not o.startswith('merge') and not o.startswith('bonds') and o != 'gro']
         # every option set on six inputs; the other 1bta windows (same code paths, other residue types) with two
         optsets = {name: list(full) if name in ('tri-ala', 'ala5', 'bta15-18', 'bta38-41', 'villin52-55', 'bpti-ss') else ['default', 'elastic']
                    for name in inputs}
@@ -462,6 +489,9 @@ def run(ctx):
                 # (one renamed hydrogen on TRP38 of bta38-41 makes the largest common subgraph drop CB instead: SC1 moves 0.7 A,
                 # rightly).  Orders, rigid motions and hash seeds remain.
                 mine = [d for d in devs if 'rename' not in repr(d)]
+            if opts.startswith('gro'):
+                # a GRO file holds 0.01 A: a translation would re-round the coordinates, i.e. change the input; orders and names remain
+                mine = [d for d in mine if 'motion' not in repr(d)]
             for chunk in common.chunked(mine, max(8, len(mine) // 6)):
                 tasks.append((name, opts, chunk))
     acc = Acc()
